@@ -431,11 +431,12 @@ func main() {
 		for _, k := range retained {
 			var again []byte
 			var aerr error
+			retNow := vt.Hex(k.ret) // read the retained slice BEFORE any further call can rewrite its backing array
 			p, _ := vt.Try(func() { again, aerr = m.ComputeMAC(append([]byte{}, k.msg...)) })
 			e := c.ev("compute")
 			e["kind"] = "retained+repeat"
 			e["key"], e["msg"] = vt.Hex(key), vt.Hex(k.msg)
-			e["out"], e["out2"] = vt.Hex(k.ret), vt.Hex(again) // retained slice as it is NOW, and a fresh recomputation
+			e["out"], e["out2"] = retNow, vt.Hex(again) // retained slice as it was after all other calls, and a fresh recomputation
 			e["err"], e["panic"], e["inIntact"] = aerr != nil, p, true
 			w.Emit(e)
 		}
